@@ -133,7 +133,7 @@ theorem meltquote_reserve (cx : Cx) (qid : Nat) (inv : InvReq) (msatOf : Nat →
   · injection he with he; subst he
     exact ⟨hh, hok.id.2.2.1, hok.reserve⟩
 
-/-- F16 (repaired): a melt quote whose payment hash is that of a mint quote of this mint — the only quotes that are settled
+/-- F17 (repaired): a melt quote whose payment hash is that of a mint quote of this mint — the only quotes that are settled
     internally — is for that mint quote's OWN invoice; an invoice made by somebody else with that payment hash (and any
     amount) is refused, whatever else the request says. -/
 theorem internal_only_for_own_invoice (cx : Cx) (qid : Nat) (inv : InvReq) (msatOf : Nat → UInt64) (u : Bool) (mpp : Option UInt64)
